@@ -240,10 +240,13 @@ func (p *parser) parseFunc() Node {
 
 func (p *parser) addParamsToScope(fd *FuncDefStmt) {
 	for _, param := range fd.Params {
+		if param.T == nil {
+			continue // previous error: invalid type declaration
+		}
 		p.validateVarDecl(param, param.token, true /* allowUnderscore */)
 		p.scope.set(param.Name, param)
 	}
-	if fd.VariadicParam != nil {
+	if fd.VariadicParam != nil && fd.VariadicParam.T != nil {
 		vParam := fd.VariadicParam
 		p.validateVarDecl(vParam, vParam.token, true /* allowUnderscore */)
 		vParamAsArray := &Var{
@@ -304,6 +307,9 @@ func (p *parser) addEventParamsToScope(e *EventHandlerStmt) {
 	for i, param := range e.Params {
 		if i >= len(expectedParams) {
 			return
+		}
+		if param.T == nil {
+			continue // previous error: invalid type declaration
 		}
 		p.validateVarDecl(param, param.token, true /* allowUnderscore */)
 		exptectedType := expectedParams[i].Type()
